@@ -806,6 +806,11 @@ class J1939_22:
         pgn = ParameterGroupNumber()
         pgn.from_message_id(mid)
 
+        if pgn.is_pdu2_format:
+            # direct broadcast: PS is a group extension, not a destination address
+            self.__notify_subscribers(mid.priority, pgn.value, mid.source_address, ParameterGroupNumber.Address.GLOBAL, timestamp, data)
+            return
+
         # peer to peer
         # pdu_specific is destination Address
         pgn_value = pgn.value & 0x1FF00
